@@ -163,6 +163,59 @@ theorem multi_char_comment_skipped :
     (systemFromString ["//".toList, "#".toList] .none "->".toList "// note\n  // x -> y\nA -> B\n# z".toList).toOption.map
       (fun rs => rs.map fun r => (keysOf r.reac, keysOf r.prod)) = some [([['A']], [['B']])] := by decide +kernel
 
+/-! ### the parameter text and the constructor checks -/
+
+/-- **the quoted parameter form**: a parameter text `'name'` (name free of quotes) is the Symbol rate constant `name`,
+never handed to `eval`; a text that does not start with a quote is an expression for `eval`.  Together with
+`parse_written` (`r.param` is the first tail part stripped) this fixes what `A -> B; 'k1'` and `A -> B; 1e-4` mean. -/
+theorem quoted_param_is_symbol (k : Str) (hk : '\'' ∉ k) :
+    classifyParam ('\'' :: (k ++ ['\''])) = .symbol k ∧
+    ∀ p : Str, (∀ c, p.head? = some c → c ≠ '\'') → classifyParam p = .expr p := by
+  constructor
+  · have h1 : startsWith ['\''] ('\'' :: (k ++ ['\''])) = true := by simp [startsWith, List.isPrefixOf]
+    have h2 : endsWith ['\''] ('\'' :: (k ++ ['\''])) = true := by simp [endsWith, List.isPrefixOf]
+    have h3 : inner ('\'' :: (k ++ ['\''])) = k := by simp [inner]
+    unfold classifyParam
+    rw [h1, h2, h3]
+    simp [hk]
+  · intro p hp
+    have : startsWith ['\''] p = false := by
+      cases p with
+      | nil => rfl
+      | cons c r => have := hp c rfl; simp [startsWith, List.isPrefixOf, Ne.symm this]
+    simp [classifyParam, this]
+
+/-- **whatever the reader accepts passes the default checks of the constructor**: if `from_string` returns a reaction,
+constructing it again with the default `checks` (`default_checks ^ {}` from the source) raises nothing; and naming both
+`checks` and `dont_check` is always refused. -/
+theorem parsed_passes_default_checks (allowed : Allowed) (tok line : Str) (r : Reaction)
+    (h : toReaction allowed tok line = .ok r) :
+    r.initChecks none none = .ok r ∧ ∀ cs dc, r.initChecks (some cs) (some dc) = .error .both := by
+  refine ⟨?_, fun _ _ => rfl⟩
+  unfold toReaction at h
+  split at h
+  · simp at h
+  · rename_i raw _
+    unfold mkReaction Reaction.check at h
+    split at h
+    · simp at h
+    · rename_i h1
+      split at h
+      · simp at h
+      · rename_i h2
+        split at h
+        · simp at h
+        · rename_i h3
+          simp at h; subst h
+          simp only [Bool.not_eq_true, Bool.not_eq_false'] at h1 h2 h3
+          have e : symDiff Printing.defaultChecks (((none : Option (List String)).getD []).eraseDups)
+              = ["all_integral", "all_positive", "any_effect", "consistent_units"] := by decide
+          unfold Reaction.initChecks
+          simp only []
+          rw [e]
+          simp [Reaction.runChecks, Reaction.runCheck, h1, h2, h3]
+          rfl
+
 /-! ### copy -/
 
 /-- **A copy compares equal to its original** — for EVERY reaction object, whatever the order of its containers (built
@@ -257,6 +310,8 @@ example : written false "NH4+".toList exProd = some ⟨3, false⟩ ∧ written t
     written false "X".toList exReac = some ⟨3, true⟩ ∧ written false "X".toList exProd = some ⟨2, true⟩ ∧
     written false "Q".toList exProd = none := by decide +kernel
 example : exTail.head?.map strip = some "1.5e-07".toList := by decide
+example : classifyParam (strip " 'k_1' ".toList) = .symbol "k_1".toList ∧ classifyParam "1e-4".toList = .expr "1e-4".toList ∧
+    classifyParam "'a'b'".toList = .expr "'a'b'".toList := by decide
 /-- `1.5 A -> B` has a non-integral total: refused -/
 example : integralWritten [⟨"A".toList, 1, .dec "5".toList, false⟩] [⟨"B".toList, 1, .omit, false⟩] = false := by decide +kernel
 
